@@ -62,6 +62,21 @@ def resolveWrapper (name : String) (installed licensed : String → Bool) : Stri
 def solveFront (name : String) (installed licensed : String → Bool) (h : Heur) (m : Mode) : String × Flow :=
   (resolveWrapper name installed licensed, solveFlow h m)
 
+/-- the calls up to and including the first occurrence of `c` -/
+def takeThrough (c : WCall) : List WCall → List WCall
+  | [] => []
+  | x :: xs => if x = c then [x] else x :: takeThrough c xs
+
+/-- `_solve_with_wrapper` when the solver reports NO value on solve number `failAt ≥ 2` (a solve of the dimension-reduction
+stage: the heuristic problem is numerically infeasible for the solver, e.g. a tolerance far below the accuracy reachable at the
+scale of the optimum): nothing is issued after that solve, the instance kept is the one of the last solve that succeeded, the
+multipliers stay those of the first solve.  `failAt = 0` (or a solve that is never issued): no failure, `solveFlow`. -/
+def solveFlowUpTo (h : Heur) (m : Mode) (failAt : Nat) : Flow :=
+  let f := solveFlow h m
+  if 2 ≤ failAt ∧ failAt ≤ f.primalFrom then
+    { f with calls := takeThrough (.solve failAt) f.calls, primalFrom := failAt - 1 }
+  else f
+
 /-- when the first solve reports no value, nothing else happens and `None` is returned -/
 def failedFlow : Flow := { calls := [.solve 1], dualsFrom := 0, primalFrom := 0, raises := false }
 
